@@ -79,16 +79,20 @@ Inductive start_script :=
 | StReply (started : bool) (rv : option Z).  (* readline returned b'STARTED\n' or something else
                                                 (b'' at EOF); p.poll() returns rv *)
 
-(* malformed entries inside a CMD_HOST_LIST payload (client.py:771-776, 457-459) *)
+(* malformed entries inside a CMD_HOST_LIST payload.  Since /repo commit ec1ce3a
+   ("validate host-list entries in the client instead of asserting", findings
+   F13/F19 of property C19) onhostlist skips them; before, an entry without a
+   comma raised ValueError and a bad name tripped sethostip's assert, which ended
+   the loop (and, as every exception, closed the helper channel). *)
 Inductive hl_bad :=
 | HlNone
-| HlNoComma      (* `name, ip = line.split(b',', 1)` -> ValueError *)
-| HlBadName.     (* FirewallClient.sethostip's assert -> AssertionError *)
+| HlNoComma      (* an entry without b',' *)
+| HlBadName.     (* a name with characters outside [-\w.] *)
 
 (* what one (scripted) ssnet.runonce does, in order *)
 Inductive act :=
 | ARoutes (bad : bool)               (* CMD_ROUTES; bad = an unparsable line (matters with --auto-nets) *)
-| AHostList (n : nat) (bad : hl_bad) (* CMD_HOST_LIST with n good entries, then maybe a bad one *)
+| AHostList (n : nat) (bad : hl_bad) (* CMD_HOST_LIST with n good entries, then maybe a bad one (skipped) *)
 | ARaise (e : exn).                  (* an exception of any class raised inside runonce *)
 
 Record iter := mkIter {
@@ -212,12 +216,8 @@ Definition server_ready (s : script) : list event * option exn :=
   | None => (ev ++ [NotifyReady], notify_exn (s_ready s))
   end.
 
-Definition hl_exn (b : hl_bad) : option exn :=
-  match b with
-  | HlNone => None
-  | HlNoComma => Some (EOther CValueError)
-  | HlBadName => Some (EOther CAssertionError)
-  end.
+(* onhostlist (client.py, as repaired): invalid entries are logged and skipped *)
+Definition hl_exn (b : hl_bad) : option exn := None.
 
 (* One dispatched message / injected exception.  `armed` = mux.got_routes is
    still the onroutes callback (client.py:765); onroutes disarms it before
